@@ -151,6 +151,22 @@ def judge(scn, obs, world):
             d = {'backend': be}
             d.update(kw)
             return d
+        # (1c) announced by the storage: due at once, so the first attempt
+        # follows the announcement with nothing but work in between
+        if m.get('how') == 'announce' and a['attempts'] and not shifted:
+            anns = [t for t, i2 in obs['announces'] if i2 == id]
+            att0 = a['attempts'][0]
+            if anns and att0['t0'] > anns[0] + LATE:
+                idle = idle_within(busy, anns[0], att0['t0'])
+                if idle > LATE:
+                    v.append({'clause': 'C12/late',
+                              'detail': det(how='announce'),
+                              'msg': 'message %d was announced by the storage '
+                                     'at t=%.6f and first attempted at t=%.6f, '
+                                     '%.3f s of that with no storage '
+                                     'operation, attempt or flush in progress'
+                                     % (k, anns[0] - world.loop._start,
+                                        att0['t0'] - world.loop._start, idle)})
         # (1) never early
         prev = None
         for i, att in enumerate(a['attempts']):
